@@ -63,6 +63,9 @@ type c02Exec struct {
 	pending   [][2]string // lines to emit (op, answer) in chronological order
 	inconcl   bool
 
+	prevOut []bctx.BindingContext // the contexts of the previous execution and how they read then
+	prevGot string
+
 	evMu   sync.Mutex
 	events []kemtypes.KubeEvent
 }
@@ -153,6 +156,9 @@ func (k *c02KC) SnapshotsFor(name string) []kemtypes.ObjectAndFilterResult {
 	r := c02RenderSnap(res, b != nil && b.spec.flt > 0)
 	if b != nil {
 		x.pending = append(x.pending, [2]string{fmt.Sprintf("oracle snap %d got=%s", id, r), "true"})
+		if b.spec.flt > 0 {
+			x.pending = append(x.pending, [2]string{fmt.Sprintf("oracle filt %d got=%s", id, r), "true"})
+		}
 	}
 	x.reads = append(x.reads, fmt.Sprintf("%d=%d", id, x.snapID(r)))
 	return res
@@ -283,6 +289,28 @@ func (x *c02Exec) execute(kind string, cctx []c02Ctx) bool {
 	for _, p := range x.pending {
 		c.Op(p[0], p[1])
 	}
+	// an execution that ran before still holds its contexts (its hook is running, or its context
+	// file is not written yet) while this one — another queue, an admission request — has read the
+	// same bindings after the cluster changed: what the earlier one holds must read as it did
+	if x.prevOut != nil {
+		again := strings.Join(x.renderOut(x.prevOut), ";")
+		c.Oracle(fmt.Sprintf("same first=%s again=%s", x.prevGot, again))
+		c.Note("exec:earlier-execution-looked-again")
+	}
+	got := x.renderOut(out)
+	x.prevOut, x.prevGot = out, strings.Join(got, ";")
+	ctxS, readsS, gotS := strings.Join(in, ";"), joinStrsSep(x.reads, ";"), strings.Join(got, ";")
+	c.Op(fmt.Sprintf("exec ctx=%s reads=%s", ctxS, readsS), gotS)
+	c.Oracle(fmt.Sprintf("exec ctx=%s reads=%s got=%s", ctxS, readsS, gotS))
+	c.Note("exec:" + kind)
+	if len(x.pending) > 0 && len(x.reads) >= 2 {
+		c.Note("exec:cluster-changed-between-reads")
+	}
+	return true
+}
+
+// renderOut: the contexts of one execution as the hook would read them from the context file.
+func (x *c02Exec) renderOut(out []bctx.BindingContext) []string {
 	var got []string
 	for _, bc := range out {
 		// the observation is what the hook reads from the binding context file: the keys of
@@ -318,14 +346,7 @@ func (x *c02Exec) execute(kind string, cctx []c02Ctx) bool {
 		}
 		got = append(got, fmt.Sprintf("%d:o=%s:s=%s", x.names.Id(bc.Binding), o, s))
 	}
-	ctxS, readsS, gotS := strings.Join(in, ";"), joinStrsSep(x.reads, ";"), strings.Join(got, ";")
-	c.Op(fmt.Sprintf("exec ctx=%s reads=%s", ctxS, readsS), gotS)
-	c.Oracle(fmt.Sprintf("exec ctx=%s reads=%s got=%s", ctxS, readsS, gotS))
-	c.Note("exec:" + kind)
-	if len(x.pending) > 0 && len(x.reads) >= 2 {
-		c.Note("exec:cluster-changed-between-reads")
-	}
-	return true
+	return got
 }
 
 func joinStrsSep(xs []string, sep string) string {
@@ -429,7 +450,7 @@ func (x *c02Exec) yaml() string {
 		fmt.Fprintf(&sb, "  apiVersion: %s\n  kind: %s\n", cl.apiVersion(), c02Kinds[b.spec.kind-1])
 		fmt.Fprintf(&sb, "  keepFullObjectsInMemory: %v\n", b.spec.keep)
 		if b.spec.flt == 1 {
-			fmt.Fprintf(&sb, "  jqFilter: '%s'\n", c02JqFilter)
+			fmt.Fprintf(&sb, "  jqFilter: '%s'\n", b.spec.theProg().text())
 		}
 		if len(b.spec.nss) > 0 {
 			var ns []string
@@ -472,6 +493,9 @@ func (x *c02Exec) genBindings() {
 	}
 	for i, n := range knames {
 		spec := c02MonSpec{id: 0, kind: rng.Range(1, 2), keep: rng.Bool(), flt: rng.Intn(2)}
+		if spec.flt == 1 && rng.Chance(60) {
+			spec.prog = c02GenProg(rng)
+		}
 		if rng.Chance(50) {
 			spec.nss = c02PickList(rng, 3)
 		}
@@ -720,6 +744,11 @@ func c02ExecCase(c *Case, rng *Rng, preset []c02Bind) {
 	}
 	if grouped {
 		c.Note("exec:group")
+	}
+	for _, b := range x.binds {
+		if b.typ == "k" && b.spec.flt == 1 {
+			c.Note("exec:" + b.spec.theProg().bucket())
+		}
 	}
 	if unnamedSched(x.binds) {
 		c.Note("exec:same-named-schedule-bindings")
